@@ -446,9 +446,37 @@ class TreeCheck(Check):
         ops += ["walk", "inv 6b", "clear", "inv 6b", "putf 61 7a", "getss 61", "dump"]
         return ops
 
+    @staticmethod
+    def fault_walk_ops(big=False):
+        """allocation failures INSIDE walks (C15: the failed call can be repeated; C03/C04: the walk
+        still visits every key exactly once), at every value of the 8-bit traversal epoch around its
+        wrap-around: a failed first call then an abandoned walk then a fresh walk; a failed call in
+        the middle of a walk / of a search continuation, retried"""
+        ks = [b"w%02d" % i for i in range(7)]
+        puts = ["put %s 76" % hexs(k) for k in ks]
+        n = len(ks)
+        ops = []
+        # a failed first getnext, the retry delivers keys, the walk is abandoned, a fresh walk follows
+        for j in (1, 2, 4):
+            ops += ["new 0"] + puts
+            for rnd in range(3):
+                ops += ["cursor0", "fault 1", "next"] + ["next"] * j + ["cursor0"] + ["next"] * (n + 1)
+            ops += ["walk"]
+        # failures in the middle of a walk and of a search continuation, around the wrap-around
+        for extra in (0, 1):
+            for w in (range(122, 131) if not big else range(100, 140)):
+                ops += ["new 0"] + puts + ["near %s" % hexs(ks[0])] + ["next"] * (n + extra)
+                ops += ["walk"] * w
+                ops += ["cursor0", "next", "next", "fault 1", "next", "fault 2", "next"] + ["next"] * (n + 1)
+                ops += ["near %s" % hexs(ks[2]), "fault 1", "next", "next", "fault 1", "next"] + ["next"] * (n + 1)
+                ops += ["walk"]
+        return ops
+
     def corpus_streams(self):
         sts = super().corpus_streams()
         sts.append(Stream("string-level-api", self.stringapi_ops(self.tier != "quick"), history=True))
+        if "walk" in self.aspects or "nearest" in self.aspects:
+            sts.append(Stream("faults-inside-walks", self.fault_walk_ops(self.tier != "quick"), history=True))
         sts.append(Stream("null-data-values", self.nulldata_ops(), history=True))
         return sts
 
